@@ -1554,3 +1554,38 @@ def inline_attr_copies (fnode, roots, keep=()):
   _R().visit(fnode)
   ast.fix_missing_locations(fnode)
   return sorted(done)
+
+
+def inline_container_aliases (fnode, root):
+  """rewrites fnode in place: a local with exactly one assignment `<x> = <root>[<name>]` (a row of a table kept under its own name),
+  where neither <root> nor <name> is re-bound between, is replaced by `<root>[<name>]` wherever it is loaded; the assignment goes.
+  Only aliases of a *container* are put back (they are subscripted or tested for membership) - a value read out of a slot is not."""
+  import copy
+  stores = {}
+  for n in ast.walk(fnode):
+    if isinstance(n, ast.Name) and isinstance(n.ctx, (ast.Store, ast.Del)): stores[n.id] = stores.get(n.id, 0) + 1
+  done = {}
+  for n in ast.walk(fnode):
+    for fld in ('body', 'orelse', 'finalbody'):
+      blk = getattr(n, fld, None)
+      if not isinstance(blk, list): continue
+      for st in list(blk):
+        if isinstance(st, ast.Assign) and len(st.targets) == 1 and isinstance(st.targets[0], ast.Name) and isinstance(st.value, ast.Subscript) and isinstance(st.value.value, ast.Name) \
+           and st.value.value.id == root and isinstance(st.value.slice, ast.Name) and stores.get(st.targets[0].id) == 1 and stores.get(root, 0) <= 1:
+          nm = st.targets[0].id
+          uses = [x for x in ast.walk(fnode) if isinstance(x, ast.Name) and x.id == nm and isinstance(x.ctx, ast.Load)]
+          parents_ok = True
+          for p_ in ast.walk(fnode):
+            for ch in ast.iter_child_nodes(p_):
+              if ch in uses:
+                ok = (isinstance(p_, ast.Subscript) and p_.value is ch) or (isinstance(p_, ast.Compare) and ch in p_.comparators and all(isinstance(o_, (ast.In, ast.NotIn)) for o_ in p_.ops))
+                if not ok: parents_ok = False
+          if uses and parents_ok:
+            done[nm] = st.value; blk.remove(st)
+  if not done: return []
+  class _R(ast.NodeTransformer):
+    def visit_Name (self, n):
+      if isinstance(n.ctx, ast.Load) and n.id in done: return ast.copy_location(copy.deepcopy(done[n.id]), n)
+      return n
+  _R().visit(fnode); ast.fix_missing_locations(fnode)
+  return sorted(done)
